@@ -112,14 +112,14 @@ o P1 240102#K5 n05 echo @c1 @c2
 < P0 240103#K8 n08 hotel k::v1
 > P9 240104#K9 n09 india k::v2 [[b]]
 - 240104#KA n10 juliet [[b]] [[cee]]
-o 240104#KB n11 kilo
+o 240104#KB n11 kilo k::v1
 - 240105#KC n12 lima
   second line of lima
-o P2 240110 240105#KD n13 mike
+o P2 240110 240105#KD n13 mike k::v2 n::7
 
 {H1R} Alpha
 
-- 240106#KE under alpha
+- 240106#KE under alpha k::v1 n::7
 
 {H2R} Common
 
